@@ -387,6 +387,55 @@ def g_access_class(R, tier):
         want_load = {0: member, 1: outer, 2: ("plain", "x")}[v["role"]]
         R.check(f"{base}.get_assign/writes-the-variable-python-writes/{sig}", got_s == want_store, f"{got_s} expected {want_store}", replay=dict(kind="scope-access"))
         R.check(f"{base}.get_load_name/reads-the-variable-python-reads/{sig}", got_l == want_load, f"{got_l} expected {want_load}", replay=dict(kind="scope-access"))
+    # ---- reads from positions INSIDE a lambda / comprehension nested in the class body: the
+    # class scope is invisible there (Language Reference 4.2.2: "the scope of names defined in
+    # a class block is limited to the class block; it does not extend to the code blocks of
+    # methods -- this includes comprehensions and generator expressions")
+    for inside in (False, True):
+        for in_gset in (False, True):   # does a nested lambda/comprehension use x as a global?
+            def run2(c):
+                m = Machine(stubs=stubs())
+                sT, fT = mk_symbol("T.x")
+                B = mk_scope("B", "function")
+                role = c.choose(3)
+                c.facts.append(["role=class-member", "role=free", "role=global"][role])
+                fields = {}
+                if role == 0:
+                    c.assume(fT["local"])
+                elif role == 1:
+                    if in_gset:
+                        # symtable axiom: a name bound in an enclosing function is FREE in a
+                        # lambda/comprehension nested in the class, never global there
+                        from olvc.sym import PathAbort
+                        raise PathAbort()
+                    c.assume(fT["free"])
+                    fields["outer_nonlocal_map"] = {"x": B}
+                else:
+                    c.assume(fT["glob"])
+                fields["globals_used_in_comp"] = {"x"} if in_gset else set()
+                binder = Opaque("enclosing-lambda-or-comprehension", object, fields=dict(target_names={"other"}))
+                fields["comp_stack"] = [binder] if inside else []
+                T = mk_scope("T", "class", {"x": sT}, **fields)
+                ld = m.call_value(ns.NamespaceClass.get_load_name, T, "x")
+                return dict(ld=ld, T=T, B=B, role=role)
+            for p in explore(run2):
+                sig = p.ctx.signature()
+                nm2 = f"{base}.get_load_name[{'inside-a-nested-lambda-or-comprehension' if inside else 'directly-in-the-class-body'},{'also-a-global-of-a-nested-scope' if in_gset else 'not-used-by-nested-scopes'}]"
+                if p.kind != "ok":
+                    R.fail(f"{nm2}/no-unexpected-raise/{sig}", repr(p.value))
+                    continue
+                v = p.value
+                T, B = v["T"], v["B"]
+                member = ("dict", TL.nk(T.fields["class_member_dict_expr"].id), "x")
+                outer = ("dict", TL.nk(B.fields["nonlocal_dict_expr"].id), "x")
+                got = loc_of_load(v["ld"], p.ctx)
+                if v["role"] == 1:
+                    want = outer                      # a variable of an enclosing function: visible everywhere
+                elif v["role"] == 2:
+                    want = ("plain", "x")
+                else:
+                    want = ("plain", "x") if inside else member   # the member is visible in the class body only
+                R.check(f"{nm2}/reads-the-variable-python-reads/{sig}", got == want, f"{got} expected {want}", replay=dict(kind="scope"))
     # dynamic class-scope lookup (LOAD_NAME: class namespace first, then globals): a name that
     # is bound LATER in the class body is read from the globals until then; a static choice
     # cannot express that
@@ -739,44 +788,71 @@ def g_transform_names(R, tier):
 
 
 def g_transform_comp(R, tier):
+    """Language Reference 6.2.4: the iterable of the FIRST for clause is evaluated in the
+    enclosing scope; the element, the conditions, the targets and every other iterable are
+    evaluated in the comprehension's own scope, where its target names shadow.  Every child
+    is transformed exactly once and the result has the same clause structure."""
     E = et()
     nm = "expr_transform.PendingComp"
-
-    def run(c):
-        m = Machine()
-        nsp = CL.mk_nsp()
-        tnames = ast.Tuple(elts=[ast.Name(id="a", ctx=ast.Store()), ast.List(elts=[ast.Name(id="b", ctx=ast.Store())], ctx=ast.Store())], ctx=ast.Store())
-        gens = [ast.comprehension(target=tnames, iter=CL.src("it1"), ifs=[], is_async=0),
-                ast.comprehension(target=ast.Name(id="c", ctx=ast.Store()), iter=CL.src("it2"), ifs=[], is_async=0)]
-        node = ast.ListComp(elt=CL.src("elt"), generators=gens)
-        pend = m.call_value(E.PendingComp, node, nsp)
-        during = list(nsp.fields["comp_stack"])
-        names = set(pend.target_names)
-        g = pend.iter_fields
-        sent = None
-        asked = []
-        while True:
-            try:
-                y = g.send(sent)
-            except IRaise as e:
-                if isinstance(e.exc, IStop):
-                    break
-                raise
-            asked.append(y)
-            sent = y
-        res = m.call_value(E.PendingComp.get_result, pend)
-        return dict(during=during, names=names, pend=pend, after=list(nsp.fields["comp_stack"]), res=res, node=node, asked=asked)
-    for p in explore(run):
-        if p.kind != "ok":
-            R.fail(nm + "/no-unexpected-raise", repr(p.value))
-            continue
-        v = p.value
-        R.check(nm + "/all-target-names-collected", v["names"] == {"a", "b", "c"}, repr(v["names"]))
-        R.check(nm + "/pushed-while-the-clauses-are-transformed-and-popped-after", v["during"] == [v["pend"]] and v["after"] == [], f"{v['during']} / {v['after']}")
-        R.check(nm + "/result-is-the-same-kind-of-comprehension", isinstance(v["res"], ast.ListComp) and v["res"] is not v["node"], repr(v["res"]))
-    native_finding(R, nm + "/first-iterable-is-evaluated-in-the-enclosing-scope",
-                   "the comprehension is pushed before its first iterable is transformed: in `[x for x in x]` the outer x (a captured variable) is read as a plain name",
-                   "def f(x):\n    def g():\n        return x\n    x = [5, 6]\n    return [x for x in x], g()\nr = f([1, 2])\n")
+    for kind in ("ListComp", "SetComp", "GeneratorExp", "DictComp"):
+        def run(c):
+            m = Machine()
+            nsp = CL.mk_nsp()
+            tnames = ast.Tuple(elts=[ast.Name(id="a", ctx=ast.Store()), ast.List(elts=[ast.Name(id="b", ctx=ast.Store())], ctx=ast.Store())], ctx=ast.Store())
+            t2 = ast.Name(id="c", ctx=ast.Store())
+            gens = [ast.comprehension(target=tnames, iter=CL.src("it1"), ifs=[CL.src("if1a"), CL.src("if1b")], is_async=0),
+                    ast.comprehension(target=t2, iter=CL.src("it2"), ifs=[CL.src("if2")], is_async=0)]
+            if kind == "DictComp":
+                node = ast.DictComp(key=CL.src("key"), value=CL.src("value"), generators=gens)
+            else:
+                node = getattr(ast, kind)(elt=CL.src("elt"), generators=gens)
+            pend = m.call_value(E.PendingComp, node, nsp)
+            names = set(pend.target_names)
+            g = pend.iter_fields
+            sent = None
+            asked = []
+            while True:
+                try:
+                    y = g.send(sent)
+                except IRaise as e:
+                    if isinstance(e.exc, IStop):
+                        break
+                    raise
+                asked.append((y, pend in nsp.fields["comp_stack"], len(nsp.fields["comp_stack"])))
+                sent = Opaque(("converted", getattr(y, "tag", None) or id(y)), ast.expr, sem=("conv", y))
+            res = m.call_value(E.PendingComp.get_result, pend)
+            return dict(names=names, pend=pend, after=list(nsp.fields["comp_stack"]), res=res, node=node, asked=asked, gens=gens, tnames=tnames, t2=t2)
+        for p in explore(run):
+            if p.kind != "ok":
+                R.fail(f"{nm}[{kind}]/no-unexpected-raise", repr(p.value))
+                continue
+            v = p.value
+            node, gens = v["node"], v["gens"]
+            R.check(f"{nm}[{kind}]/all-target-names-collected", v["names"] == {"a", "b", "c"}, repr(v["names"]))
+            inside = {id(y): sh for y, sh, _ in v["asked"]}
+            first = gens[0].iter
+            rest = [getattr(node, f) for f in ("elt", "key", "value") if hasattr(node, f)] + [gens[1].iter] + gens[0].ifs + gens[1].ifs
+            R.check(f"{nm}[{kind}]/first-iterable-is-transformed-in-the-enclosing-scope", inside.get(id(first)) is False,
+                    f"targets shadow while the first iterable is transformed: {inside.get(id(first))}",
+                    replay=dict(kind="src", src="def f(x):\n    def g():\n        return x\n    x = [5, 6]\n    return [x for x in x], {x: x for x in x}, list(x for x in x), g()\nr = f([1, 2])\n", expect="same-globals"))
+            R.check(f"{nm}[{kind}]/element-conditions-and-inner-iterables-are-transformed-under-the-shadow", all(inside.get(id(x)) is True for x in rest),
+                    repr([(getattr(x, "tag", x), inside.get(id(x))) for x in rest]), replay=dict(kind="scope"))
+            ids = [id(y) for y, _, _ in v["asked"]]
+            must = [id(first)] + [id(x) for x in rest]
+            R.check(f"{nm}[{kind}]/every-expression-child-transformed-exactly-once", all(ids.count(i) == 1 for i in must) and len(set(ids)) == len(ids),
+                    f"requested {len(ids)} children, {len(set(ids))} distinct; missing {[i for i in must if i not in ids]}")
+            R.check(f"{nm}[{kind}]/shadow-removed-afterwards", v["after"] == [], repr(v["after"]))
+            res = v["res"]
+            conv_of = lambda x: isinstance(x, Opaque) and x.props.get("sem", (0, 0))[0] == "conv" and x.props["sem"][1]
+            ok = type(res) is type(node) and res is not node and len(res.generators) == 2
+            if ok:
+                for rg, sg in zip(res.generators, gens):
+                    ok = ok and conv_of(rg.iter) is sg.iter and [conv_of(i) for i in rg.ifs] == list(sg.ifs) and rg.is_async == sg.is_async \
+                        and (conv_of(rg.target) is sg.target or rg.target is sg.target)
+                for f in ("elt", "key", "value"):
+                    if hasattr(node, f):
+                        ok = ok and conv_of(getattr(res, f)) is getattr(node, f)
+            R.check(f"{nm}[{kind}]/result-is-the-same-comprehension-with-every-child-in-its-place", bool(ok), _safe_show(res) if not isinstance(res, Opaque) else repr(res))
 
 
 def _safe_show(res):
@@ -833,10 +909,25 @@ def g_nested_binders(R, tier):
                 if ok:
                     ex, ey, ez = tuples[0].elts
                     plain = lambda e, n_: isinstance(e, ast.Name) and e.id == n_
-                    celled = lambda e: isinstance(e, ast.Subscript) and isinstance(e.slice, ast.Constant) and e.slice.value == "z"
-                    ok = plain(ex, "x") and plain(ey, "y") and celled(ez)
+                    celled = lambda e, n_="z": isinstance(e, ast.Subscript) and isinstance(e.slice, ast.Constant) and e.slice.value == n_
+                    # function: z is a captured variable -> read from the cell dict.  class: the
+                    # class scope is INVISIBLE inside a lambda/comprehension (Language Reference
+                    # 4.2.2), so the member z is not what is read there: a plain (global) name
+                    ok = plain(ex, "x") and plain(ey, "y") and (celled(ez) if kind == "function" else plain(ez, "z"))
                 R.check(f"{nm}/names-bound-by-enclosing-binders-stay-plain-others-go-to-the-cell", ok,
                         _safe_show(res), replay=dict(kind="scope"))
+                # the iterable of the FIRST for clause of the OUTERMOST comprehension is evaluated
+                # in the enclosing scope (class member / captured variable `seq`); an inner
+                # comprehension's first iterable is evaluated inside the outer binder
+                if isinstance(res, ast.ListComp):
+                    outer_it = res.generators[0].iter
+                    R.check(f"{nm}/outermost-first-iterable-is-read-in-the-enclosing-scope",
+                            celled(outer_it, "seq") if kind == "class" else plain(outer_it, "seq"),
+                            _safe_show(outer_it), replay=dict(kind="scope"))
+                    inner = [n for n in ast.walk(res.elt) if isinstance(n, ast.ListComp)]
+                    if inner and kind == "class":
+                        R.check(f"{nm}/inner-first-iterable-does-not-see-the-class-scope", plain(inner[0].generators[0].iter, "seq"),
+                                _safe_show(inner[0].generators[0].iter), replay=dict(kind="scope"))
 
 
 # ----------------------------------------------------------------------------------------
@@ -982,6 +1073,9 @@ GROUPS = {"nested_binders": g_nested_binders, "for_target": g_for_target, "names
 
 # ----------------------------------------------------------------------------------------
 SCOPE_PROGRAMS = [
+    "limit = 1\nclass A:\n    limit = 2\n    f = lambda self: limit\n    double = limit * 2\n    seq = (1, 2)\n    g = [q + limit for q in seq]\n    h = [[p + q for p in seq2] for q in seq for seq2 in [(q,)]]\n    k = (lambda a=limit: a + limit)()\nr = (A.double, A().f(), A.g, A.h, A.k)\n",
+    "def f(limit):\n    class A:\n        own = 5\n        g = [limit + q for q in (own,)]\n        h = lambda self: limit\n    return A.g, A().h()\nr = f(3)\n",
+    "def f(x):\n    def g():\n        return x\n    x = [5, 6]\n    return [x for x in x], {x: x for x in x}, list(x for x in x), [y for x in [x] for y in x], g()\nr = f(0)\n",
     "def f(x):\n    def g():\n        return x\n    x = x + 4\n    fs = [(lambda: x + 3) for x in (10, 10, 10)]\n    h = lambda x: (lambda y: x + y)\n    return [k() for k in fs], h(1)(2), g()\nr = f(10)\n",
     "def f(*rest, **kw):\n    def g():\n        return rest, kw\n    return g()\nr = f(1, 2, a=3)\n",
     "def F(a, b=2, *c, d=4, **e):\n    def G():\n        return a, b, c, d, e\n    a = a + 1\n    return G()\nr = F(1, 5, 6, z=7)\n",
